@@ -585,3 +585,7 @@ MANIFEST_TEXT_EXTRA['C03'] = {
 # operations whose model side is the specification itself (see check: spec_ops)
 PROPS_EXTRA['C01']['spec_ops'] = ['specdec']
 PROPS_EXTRA['C03']['spec_ops'] = ['specenc']
+
+# C14 / C16 also run the simd-accel configuration (the validators and classifiers have SIMD kernels of their own)
+PROPS_EXTRA['C14']['harness_cfgs'] = ['default', 'simd']
+PROPS_EXTRA['C16']['harness_cfgs'] = ['default', 'simd']
